@@ -704,6 +704,23 @@ class Worker:
             self.close()
             raise
 
+    def ask_many(self, reqs):
+        """Several requests, each printed by its own never-used child; the children run concurrently."""
+        if not reqs:
+            return []
+        if self.proc is None:
+            raise WorkerFailed('C07 worker is closed')
+        try:
+            self.proc.stdin.write(json.dumps({'batch': reqs}) + '\n')
+            self.proc.stdin.flush()
+            res = json.loads(self._readline(self.ASK_DEADLINE + 30 * len(reqs)))
+            if not isinstance(res, list) or len(res) != len(reqs):
+                raise WorkerFailed('C07 worker: bad batch answer')
+            return res
+        except BaseException:
+            self.close()
+            raise
+
     def close(self):
         proc, self.proc = self.proc, None
         if proc is None:
@@ -740,11 +757,7 @@ def _worker_main(theory_name):
     out = sys.stdout
     out.write(json.dumps({'ready': True, 'memo': len(getattr(pprint, 'term_ast', {}))}) + '\n')
     out.flush()
-    for line in sys.stdin:
-        line = line.strip()
-        if not line:
-            continue
-        req = json.loads(line)
+    def spawn(req):
         r, w = os.pipe()
         pid = os.fork()
         if pid == 0:
@@ -752,7 +765,7 @@ def _worker_main(theory_name):
             res = {}
             try:
                 gc.disable()
-                signal.alarm(20)
+                signal.alarm(60)
                 theory.thy = thy
                 t = codec.term_dec(req['t'])
                 text, lines = do_print('term', t, req.get('unicode'), req.get('highlight'), req.get('line_length'))
@@ -764,6 +777,9 @@ def _worker_main(theory_name):
             finally:
                 os._exit(0)
         os.close(w)
+        return pid, r
+
+    def collect(pid, r):
         chunks = []
         while True:
             c = os.read(r, 65536)
@@ -772,8 +788,27 @@ def _worker_main(theory_name):
             chunks.append(c)
         os.close(r)
         os.waitpid(pid, 0)
-        data = b''.join(chunks).decode('utf-8', 'replace') or json.dumps({'err': 'child produced no output'})
-        out.write(data + '\n')
+        data = b''.join(chunks).decode('utf-8', 'replace')
+        try:
+            return json.loads(data)
+        except Exception:
+            return {'err': 'child produced no answer (killed or timed out)'}
+
+    for line in sys.stdin:
+        line = line.strip()
+        if not line:
+            continue
+        req = json.loads(line)
+        if isinstance(req, dict) and 'batch' in req:
+            answers = []
+            reqs = req['batch']
+            width = 8
+            for i in range(0, len(reqs), width):
+                kids = [spawn(q) for q in reqs[i:i + width]]
+                answers.extend(collect(pid, r) for pid, r in kids)
+            out.write(json.dumps(answers) + '\n')
+        else:
+            out.write(json.dumps(collect(*spawn(req))) + '\n')
         out.flush()
 
 
